@@ -628,3 +628,19 @@ META["C19"] = {
                     "`(*cumulative as f64 / TRG_CLOCK_FREQ).get::<second>()` -> `f64::from_bits(*cumulative)`; rows are collected in a fixed array"],
 }
 
+
+
+# ------------------------------------------------------------------ C08: run-number gates over the HashMap tables ----
+RS_STUB = ("std::hash::RandomState::new", "crate::c08::fixed_random_state")
+for (name, p4418, p10418, sched) in ((44, 4 * 8 + 0, 6 * 8 + 2, "thorough"), (46, 2 * 8 + 0, -1, "thorough"), (90, -1, 2 * 8 + 0, "thorough"), (12, 0, 0, "thorough")):
+    add(name="c08_run_gate_pwb_%d" % name, prop="C08", crate="det", expr="crate::c08::run_gate_pwb::<%d, %d, %d>" % (name, p4418, p10418),
+        unwind=10, unwindset=[("BoardId", 73), ("run_gate_pwb", 10), ("memcmp", 8)], cap_s=900, mem_gb=8, est_s=300, family="run_gate",
+        funcs=["padwing::map::TpcPwbPosition::try_new (match on run_number + lazy_static HashMap lookup, hasher seed fixed by a stub)"],
+        witnesses=["last-run-of-the-first-map", "simulation-run"], sched=sched, klass="best", stub=RS_STUB,
+        params={"board": name, "run": "all 2^32", "expected": "error < 4418; map 4418 for [4418, 10418) and u32::MAX; map 10418 from 10418"})
+for (bk, ch, wire, sched) in ((0, 0, 4, "thorough"), (6, 31, 255, "thorough")):
+    add(name="c08_run_gate_wire_%d_%d" % (bk, ch), prop="C08", crate="det", expr="crate::c08::run_gate_wire::<%d, %d, %d>" % (bk, ch, wire),
+        unwind=10, unwindset=[("BoardId", 10), ("memcmp", 8)], cap_s=900, mem_gb=8, est_s=300, family="run_gate",
+        funcs=["alpha16::aw_map::TpcWirePosition::try_new (match on run_number + lazy_static HashMap lookup, hasher seed fixed by a stub)"],
+        witnesses=["first-run-with-a-map"], sched=sched, klass="best", stub=RS_STUB,
+        params={"board_row": bk, "channel": ch, "run": "all 2^32", "expected_wire": wire})
